@@ -15,11 +15,13 @@ import (
 func init() { register("C19", c19) }
 
 func c19(p *an.Prog, r *an.R, tier string) {
+	defer c19Detach(p, r)
 	r.Explanation = "C19 (structural clauses): the shard map of the sharded searcher is only touched under its mutex and the published shard list only through its atomic.Value; the published list is copy-on-write: what is stored is a slice freshly made in replace, and no code mutates (element store, append, sort, slices.Delete*/Reverse/Sort*) a slice obtained from the published list; a replaced shard is closed only by the finalizer installed in replace (or, for a shard that was never published, by the failed-load path); every caller of streamSearch calls the returned done() on every path and only after its last flush/send; the watcher reloads a shard whenever its recorded timestamp differs from the current one (not only when it is newer). Does NOT decide data-race freedom in general, 'one consistent version per repository', or convergence of the loaded set."
 	r.Rule("C19.R1", "lockset: shardedSearcher.shards only under shardedSearcher.mu; shardedSearcher.ranked only as receiver of atomic Load/Store")
 	r.Rule("C19.R2", "copy-on-write: ranked.Store gets a slice made in the same function; values derived from ranked.Load()/getLoaded() are never appended to, stored into, sorted or compacted in place")
 	r.Rule("C19.R3", "who-may-close: in package search a shard's Close is called only inside the finalizer closure of replace, on the failed-load path of loadShard, or by shardedSearcher.Close via replace")
 	r.Rule("C19.R4", "keep-alive: after streamSearch returns, done() is called on every path, and no flush()/Send is reachable after done()")
+	r.Rule("C19.R6", "the memory-mapped searcher stays attached to the object whose finalizer unmaps it: in package search (outside mkRankedShard, which builds the pair) a value read from the embedded field rankedShard.Searcher is only used in place - as the receiver of a method call, in a comparison, or as the argument of a synchronous call; it is never sent on a channel, passed to a go statement, captured by a closure, stored, or returned, because a goroutine that holds only the inner searcher does not keep the *rankedShard reachable and the finalizer armed by replace closes the shard under it")
 	r.Rule("C19.R5", "DirectoryWatcher.scan reloads on timestamp inequality (t != mtime), not on an ordering comparison")
 	sp := p.Pkg("search")
 	shardsF := p.Field("search", "shardedSearcher", "shards")
@@ -520,4 +522,93 @@ func c19IsField(v ssa.Value, f *types.Var) bool {
 		v = fa.X
 	}
 	return false
+}
+
+// c19Detach: R6.
+func c19Detach(p *an.Prog, r *an.R) {
+	sp := p.Pkg("search")
+	innerF := p.Field("search", "rankedShard", "Searcher")
+	if !r.Anchor(sp != nil && innerF != nil, "search.rankedShard.Searcher") {
+		return
+	}
+	reads := 0
+	for _, f := range p.SSAFuncs() {
+		if p.PkgOfSSA(f) != sp || f.Name() == "mkRankedShard" {
+			continue
+		}
+		inFn := 0
+		an.Instrs(f, func(b *ssa.BasicBlock, in ssa.Instruction) {
+			var v ssa.Value
+			switch x := in.(type) {
+			case *ssa.UnOp:
+				if x.Op == token.MUL && c19IsField(x.X, innerF) {
+					v = x
+				}
+			case *ssa.Field:
+				if an.StructFields(x.X.Type())[x.Field] == innerF {
+					v = x
+				}
+			}
+			if v == nil {
+				return
+			}
+			reads++
+			inFn++
+			r.Fn(an.SSAName(f))
+			how, at := c19Leaves(v, map[ssa.Value]bool{})
+			pos := in.Pos()
+			if at != token.NoPos {
+				pos = at
+			}
+			r.Check(how == "", "C19.R6", an.SSAName(f)+"/inner-searcher-stays-attached#"+fmt.Sprint(inFn), pos, "the inner searcher read here is used in place (method receiver, comparison, synchronous call argument)",
+				"the inner searcher of a *rankedShard is "+how+": whoever receives it uses the memory-mapped shard without keeping the *rankedShard reachable, so after the watcher replaces or drops the shard the finalizer armed by replace closes (unmaps) it under a running request")
+		})
+	}
+	r.Floor("C19.R6.reads-of-rankedShard.Searcher", 1, reads)
+}
+
+// c19Leaves follows a value through interface conversions and phis and says how it leaves the frame, if it does.
+func c19Leaves(v ssa.Value, seen map[ssa.Value]bool) (string, token.Pos) {
+	if seen[v] || v.Referrers() == nil {
+		return "", token.NoPos
+	}
+	seen[v] = true
+	for _, ref := range *v.Referrers() {
+		switch x := ref.(type) {
+		case *ssa.Send:
+			if x.X == v {
+				return "sent on a channel", x.Pos()
+			}
+		case *ssa.Go:
+			return "passed to a go statement", x.Pos()
+		case *ssa.Defer:
+			// runs in this frame
+		case *ssa.MakeClosure:
+			return "captured by a closure", x.Pos()
+		case *ssa.Store:
+			if x.Val == v {
+				// a local variable whose address stays in the frame: follow what is loaded from it
+				if a, ok := x.Addr.(*ssa.Alloc); ok && !a.Heap && a.Referrers() != nil {
+					for _, ar := range *a.Referrers() {
+						if ld, ok := ar.(*ssa.UnOp); ok && ld.Op == token.MUL {
+							if how, at := c19Leaves(ld, seen); how != "" {
+								return how, at
+							}
+						}
+					}
+					continue
+				}
+				return "stored", x.Pos()
+			}
+		case *ssa.MapUpdate:
+			return "stored in a map", x.Pos()
+		case *ssa.Return:
+			return "returned", x.Pos()
+		case *ssa.MakeInterface, *ssa.ChangeInterface, *ssa.ChangeType, *ssa.Phi, *ssa.TypeAssert, *ssa.Extract, *ssa.Slice:
+			if how, at := c19Leaves(x.(ssa.Value), seen); how != "" {
+				return how, at
+			}
+		}
+	}
+	return "", token.NoPos
 }
